@@ -37,11 +37,18 @@ def gen_cases(ctx):
         for k in [0] + ids:
             b = base if not hostile else rng.choice([15000, 300000])
             profs[str(k)] = N.rand_profile(rng, base=b)
-        yield {"ids": ids, "offsets": {str(k): rng.choice([0, 0, rng.randrange(0, 2000)]) for k in ids},
-               "no_children": [k for k in ids if rng.random() < 0.15],
+        deep = (i % 5 == 3) and not hostile
+        if deep:
+            nj = rng.choice([8, 10, 12])
+            ids = rng.sample(range(1, 256), nj) if i % 2 else rng.sample(range(1, 30), nj)
+            for k in [0] + ids:
+                profs[str(k)] = N.rand_profile(rng, base=base)
+        yield {"deep": deep,
+               "ids": ids, "offsets": {str(k): rng.choice([0, 0, rng.randrange(0, 2000)]) for k in ids},
+               "no_children": [k for k in ids if rng.random() < 0.15] if not deep else [],
                "cls": {str(k): rng.choice(["meshnm", "meshnm", "mesh"]) for k in ids},
                "profiles": profs, "hostile": hostile, "seed": rng.getrandbits(30),
-               "timeout": rng.choice([3.0, 7.5]), "unknown_id": rng.choice([k for k in range(1, 256) if k not in ids])}
+               "timeout": rng.choice([3.0, 7.5]) if not deep else 15.0, "unknown_id": rng.choice([k for k in range(1, 256) if k not in ids])}
 
 
 def run_case(ctx, case):
@@ -62,6 +69,25 @@ def _run(ctx, case, net):
         if k in case["no_children"]:
             nn.obj.allow_children = False
         joiners[k] = nn
+    fake = {}
+    if case.get("deep"):
+        # leases of absent nodes (fake IDs >= 1000) leave a narrow tree: 1 slot on level 1, two
+        # under every node below it -> 12 joiners reach levels 3 and 4 through level-2/3 relays
+        fid = 1000
+        for a in (0o1, 0o2, 0o3, 0o4):
+            fake[fid] = a
+            fid += 1
+        parents = [0o5]
+        for lvl in (1, 2, 3):
+            nxt = []
+            for p in parents:
+                for c in (3, 4):
+                    fake[fid] = p | (c << (3 * lvl))
+                    fid += 1
+                nxt += [p | (1 << (3 * lvl)), p | (2 << (3 * lvl))]
+            parents = nxt
+        for k, a in fake.items():
+            master.obj.set_address(k, a)
     if hostile:
         frng = random.Random(case["seed"] ^ 0x17)
         net.air.collisions = True
@@ -116,7 +142,15 @@ def _run(ctx, case, net):
         o = nn.obj
         wn = nn.wnode
         r = res[k]
-        wn.idle(case["offsets"][str(k)] * W.MS)
+        if case.get("deep"):
+            # deep narrow trees are joined one node at a time: concurrent joins through level-2/3
+            # relays congest the master (it waits out route_timeout per relayed reply), which is a
+            # throughput matter outside the property's quantifier
+            me0 = order.index(k)
+            pump_while(nn, lambda: st["joined"] < me0)
+            pump_until(nn, wn.t + 20 * W.MS)
+        else:
+            wn.idle(case["offsets"][str(k)] * W.MS)
         t_start = wn.t
         try:
             r["join"] = net.call(nn, "renew_address", o.renew_address, T, deadline_ms=(T + 2.5) * 1000)
@@ -132,7 +166,7 @@ def _run(ctx, case, net):
             try:
                 others = [j for j in ids if j != k and res[j].get("join") not in (None, "no return")]
                 tgt = others[0] if others else None
-                r["table_at_lookup"] = dict(master.obj.dhcp_dict)
+                r["table_at_lookup"] = {a: b for a, b in master.obj.dhcp_dict.items() if a < 1000}
                 r["lk_own"] = net.call(nn, "lookup_address", o.lookup_address, k, deadline_ms=2000)
                 r["lk_other"] = (tgt, net.call(nn, "lookup_address", o.lookup_address, tgt, deadline_ms=2000)) if tgt else None
                 r["lk_unknown"] = net.call(nn, "lookup_address", o.lookup_address, case["unknown_id"], deadline_ms=2000)
@@ -140,7 +174,7 @@ def _run(ctx, case, net):
                 r["lkid_own"] = net.call(nn, "lookup_node_id", o.lookup_node_id, o.node_address, deadline_ms=2000)
                 r["lkid_unknown"] = net.call(nn, "lookup_node_id", o.lookup_node_id, 0o5555 if 0o5555 not in
                                              master.obj.dhcp_dict.values() else 0o5554, deadline_ms=2000)
-                r["table_after_lookup"] = dict(master.obj.dhcp_dict)
+                r["table_after_lookup"] = {a: b for a, b in master.obj.dhcp_dict.items() if a < 1000}
                 r["cc"] = net.call(nn, "check_connection", o.check_connection, deadline_ms=3000)
                 r["sends"] = []
                 for tgt2 in others[:4]:
@@ -296,7 +330,8 @@ def _run(ctx, case, net):
                 ctx.violation("rejoin-failed", "ID %d could not re-join after release" % k, case)
                 return
     relay_used = any(net_ref.level(a) >= 2 for a in conn.values())
-    ctx.nontrivial((len(ids), relay_used, case["profiles"]["0"]["spi_overhead"], bool(case["no_children"]),
+    ctx.count("nodes_on_level_%d" % max([net_ref.level(a) for a in conn.values()] or [0]))
+    ctx.nontrivial((len(ids), relay_used, max([net_ref.level(a) for a in conn.values()] or [0]), case["profiles"]["0"]["spi_overhead"], bool(case["no_children"]),
                     tuple(sorted(case["cls"].values()))))
     ctx.sample({"ids": ids, "addresses": {k: oct(a) for k, a in conn.items()},
                 "join_ms": {k: round(res[k].get("join_ms", 0)) for k in ids},
